@@ -25,19 +25,24 @@ macro_rules! tok_comp {
         pub struct $name<const N: u8> {
             cid: u32,
             val: u32,
+            /// identity of a `Default`-created instance (a filler of DefaultVecStorage, the value made
+            /// by get_mut_or_default): never shown, only used to notice that one is destroyed twice
+            fid: u32,
         }
         impl<const N: u8> Component for $name<N> {
             type Storage = $storage;
         }
         impl<const N: u8> Default for $name<N> {
             fn default() -> Self {
-                $name { cid: 0, val: 0 }
+                $name { cid: 0, val: 0, fid: ledger::filler_created() }
             }
         }
         impl<const N: u8> Drop for $name<N> {
             fn drop(&mut self) {
                 if self.cid != 0 {
                     ledger::dropped(self.cid);
+                } else if self.fid != 0 {
+                    ledger::filler_dropped(self.fid);
                 }
             }
         }
@@ -46,7 +51,7 @@ macro_rules! tok_comp {
             const KIND: &'static str = $kind;
             fn new(cid: u32, val: u32) -> Self {
                 ledger::created(cid);
-                $name { cid, val }
+                $name { cid, val, fid: 0 }
             }
             fn cid(&self) -> u32 {
                 self.cid
